@@ -73,6 +73,12 @@ func aliasingConfig(seed uint64, i int, root string) (*gen.Case, error) {
 		&gen.Content{Type: "config", Src: filepath.Join(root, host.Rel), Dst: "/etc/" + s.Name + "/alias.conf", FI: &gen.FI{Owner: "root", Group: "adm"}},
 		// nothing left to default: owner, group, mode and mtime are all declared
 		&gen.Content{Type: "dir", Dst: "/var/lib/" + s.Name + "/alias-dir3", FI: &gen.FI{Owner: "daemon", Group: "daemon", Mode: 0o750, MTime: 1222222225}},
+		// a symlink whose file_info leaves nothing to default (owner, group, mode and
+		// a time before 1970), pointing at something that exists on the build host
+		&gen.Content{Type: "symlink", Src: filepath.Join(root, host.Rel), Dst: "/usr/lib/" + s.Name + "/alias-link3", FI: &gen.FI{Owner: "root", Group: "adm", Mode: 0o777, MTime: -86400}},
+		&gen.Content{Type: "symlink", Src: "/nonexistent-verif/y", Dst: "/usr/lib/" + s.Name + "/alias-link4", FI: &gen.FI{Owner: "root", Group: "adm", MTime: 4400000000}},
+		// a tag no packager answers to: the entry is in no package
+		&gen.Content{Src: filepath.Join(root, host.Rel), Dst: "/opt/" + s.Name + "/tagged-arch", Packager: "arch"},
 		// destinations in the directories a usr-merged distribution symlinks
 		&gen.Content{Src: filepath.Join(root, host.Rel), Dst: "/bin/" + s.Name + "-tool"},
 		&gen.Content{Src: filepath.Join(root, host.Rel), Dst: "/sbin/" + s.Name + "-admin"},
@@ -80,12 +86,19 @@ func aliasingConfig(seed uint64, i int, root string) (*gen.Case, error) {
 		&gen.Content{Type: "symlink", Src: "/nonexistent-verif/x", Dst: "/lib/" + s.Name + "-link"},
 	)
 	if s.Changelog != "" {
-		// entries listed oldest first and out of date order: whoever sorts them
-		// must not do so in a list another packager renders later
+		// entries listed oldest first and out of date order, one of them without
+		// a date: whoever sorts or completes them must not do so in a list another
+		// packager renders later
 		body := ""
-		for k, d := range []string{"2019-01-01T00:00:00Z", "2021-06-01T00:00:00Z", "2020-03-01T00:00:00Z", "2022-09-01T00:00:00Z"} {
-			body += fmt.Sprintf("- semver: \"0.%d.0\"\n  date: %s\n  packager: \"P%d <p%d@example.com>\"\n  changes:\n    - note: \"entry %d\"\n", k+1, d, k, k, k)
+		for k, d := range []string{"2019-01-01T00:00:00Z", "2021-06-01T00:00:00Z", "", "2020-03-01T00:00:00Z", "2022-09-01T00:00:00Z"} {
+			dl := ""
+			if d != "" {
+				dl = "  date: " + d + "\n"
+			}
+			body += fmt.Sprintf("- semver: \"0.%d.0\"\n%s  packager: \"P%d <p%d@example.com>\"\n  changes:\n    - note: \"entry %d\"\n", k+1, dl, k, k, k)
 		}
+		// an entry addressed to rpm at the path where deb puts its own changelog
+		s.Contents = append(s.Contents, &gen.Content{Src: filepath.Join(root, host.Rel), Dst: "/usr/share/doc/" + s.Name + "/changelog.Debian.gz", Packager: "rpm"})
 		if st, err := os.Stat(s.Changelog); err == nil {
 			_ = os.WriteFile(s.Changelog, []byte(body), 0o644)
 			_ = os.Chtimes(s.Changelog, st.ModTime(), st.ModTime())
